@@ -610,12 +610,15 @@ func (s *State) runAll(resume bool) {
 		if len(en) == 0 {
 			s.deadlock()
 		}
-		t := en[s.choice(len(en))]
+		t := en[s.schedChoice(en)]
 		if t != s.cur && curEnabled {
 			s.preempts++
 		}
 		s.cur = t
 		s.sched = append(s.sched, t.id)
+		if s.dporOn() {
+			s.dporBefore(t)
+		}
 		if t.parked {
 			t.parked = false
 			t.resumed = true
@@ -649,4 +652,165 @@ func (s *State) whereOf(t *Thread) string {
 	w := s.where()
 	s.cur = saved
 	return w
+}
+
+
+// ---------- dynamic partial-order reduction ----------
+//
+// Scheduling alternatives are not queued eagerly. Every visible operation records its footprint
+// (lock, channel, atomic cell, pool); when an operation conflicts with an earlier operation of
+// another thread on the same object and the two are not ordered by happens-before, the state before
+// the earlier one is revisited with the later thread scheduled first (Flanagan & Godefroid 2005,
+// without sleep sets). Data branches are unaffected.
+
+type schedPt struct {
+	tracePos int   // index in the decision trace of this scheduling choice (-1: no choice was recorded)
+	enabled  []int // thread ids in the order offered
+	chosen   int
+	preempts int
+}
+
+type accEv struct{ tid, clk, pt int }
+
+type accRec struct {
+	w *accEv
+	r map[int]*accEv
+}
+
+func (s *State) dporOn() bool {
+	return s.cfg != nil && s.cfg.DPOR && s.atomic == 0
+}
+
+func (s *State) schedChoice(en []*Thread) int {
+	ids := make([]int, len(en))
+	for i, t := range en {
+		ids[i] = t.id
+	}
+	pt := schedPt{tracePos: -1, enabled: ids, preempts: s.preempts}
+	k := 0
+	if len(en) > 1 {
+		if !s.dporOn() {
+			k = s.choice(len(en))
+		} else {
+			pt.tracePos = len(s.trace)
+			if s.dpos < len(s.forced) {
+				d := s.forced[s.dpos]
+				s.dpos++
+				s.trace = append(s.trace, d)
+				k = d >> 2
+				if k >= len(en) {
+					panic(execAbort{"engine", "schedule replay diverged"})
+				}
+			} else {
+				s.dpos++
+				s.trace = append(s.trace, 0)
+			}
+		}
+	}
+	pt.chosen = k
+	s.schedPts = append(s.schedPts, pt)
+	return k
+}
+
+// footprint of the operation th is about to perform: object keys and whether it is a write-like access
+func (s *State) footprint(th *Thread) (keys []any, write bool) {
+	if th.done || len(th.frames) == 0 {
+		return nil, false
+	}
+	fr := th.frames[len(th.frames)-1]
+	if fr.fn == nil || fr.barrier || fr.pc >= len(fr.block.Instrs) {
+		return nil, false
+	}
+	switch in := fr.block.Instrs[fr.pc].(type) {
+	case *ssa.Send:
+		return []any{s.eval(fr, in.Chan).(ChanRef).C}, true
+	case *ssa.UnOp:
+		if in.Op == token.ARROW {
+			return []any{s.eval(fr, in.X).(ChanRef).C}, true
+		}
+	case *ssa.Select:
+		for _, st := range in.States {
+			keys = append(keys, s.eval(fr, st.Chan).(ChanRef).C)
+		}
+		return keys, true
+	case *ssa.Call:
+		callee := s.staticCallee(fr, &in.Call)
+		switch visibleKind(callee) {
+		case "lock":
+			p := s.eval(fr, in.Call.Args[0]).(Ptr)
+			return []any{lockKey{p.Obj, p.Off}}, true
+		case "rlock":
+			p := s.eval(fr, in.Call.Args[0]).(Ptr)
+			return []any{lockKey{p.Obj, p.Off}}, false
+		case "wgwait", "pool":
+			p := s.eval(fr, in.Call.Args[0]).(Ptr)
+			return []any{lockKey{p.Obj, p.Off}}, true
+		case "atomic":
+			p, ok := s.eval(fr, in.Call.Args[0]).(Ptr)
+			if ok {
+				w := !strings.HasPrefix(callee.Name(), "Load")
+				return []any{lockKey{p.Obj, p.Off}}, w
+			}
+		}
+	}
+	return nil, false
+}
+
+func (s *State) dporBefore(th *Thread) {
+	keys, write := s.footprint(th)
+	if len(keys) == 0 {
+		return
+	}
+	s.tick(th)
+	cur := len(s.schedPts) - 1
+	ev := &accEv{tid: th.id, clk: th.vc.get(th.id), pt: cur}
+	if s.objAcc == nil {
+		s.objAcc = map[any]*accRec{}
+	}
+	for _, k := range keys {
+		rec := s.objAcc[k]
+		if rec == nil {
+			rec = &accRec{r: map[int]*accEv{}}
+			s.objAcc[k] = rec
+		}
+		if rec.w != nil && rec.w.tid != th.id && !th.vc.covers(rec.w.tid, rec.w.clk) {
+			s.backtrack(rec.w.pt, th.id)
+		}
+		if write {
+			for tid, e := range rec.r {
+				if tid != th.id && !th.vc.covers(e.tid, e.clk) {
+					s.backtrack(e.pt, th.id)
+				}
+			}
+			rec.w = ev
+			rec.r = map[int]*accEv{}
+		} else {
+			rec.r[th.id] = ev
+		}
+	}
+}
+
+// backtrack queues the schedule that runs thread tid first at scheduling point pt.
+func (s *State) backtrack(pt int, tid int) {
+	p := s.schedPts[pt]
+	if p.tracePos < 0 {
+		return
+	}
+	add := func(j int) {
+		if j == p.chosen {
+			return
+		}
+		alt := append(append([]int{}, s.trace[:p.tracePos]...), j<<2)
+		s.ex.pushOnce(alt)
+	}
+	for j, id := range p.enabled {
+		if id == tid {
+			add(j)
+			return
+		}
+	}
+	// the later thread was not enabled there: try every alternative
+	for j := range p.enabled {
+		add(j)
+	}
 }
